@@ -281,7 +281,7 @@ func c09Jump(c *Ctx, e *e4Engine, f *ssa.Function, hdr *ssa.BasicBlock, loop map
 		}
 	}
 	// (b) accumulators in this loop are capped
-	c09Accumulators(c, f, hdr, loop, key)
+	c09Accumulators(c, "C09-K1", f, hdr, loop, key)
 }
 
 func c09Restore(c *Ctx, e *e4Engine, f *ssa.Function, hdr *ssa.BasicBlock, loop map[*ssa.BasicBlock]bool, cur, saved *ssa.Phi, pred *ssa.BasicBlock, phis []*ssa.Phi) {
@@ -300,7 +300,7 @@ func c09Restore(c *Ctx, e *e4Engine, f *ssa.Function, hdr *ssa.BasicBlock, loop 
 }
 
 // c09Accumulators: string accumulators grown by concatenation inside the loop must be length-capped by a constant.
-func c09Accumulators(c *Ctx, f *ssa.Function, hdr *ssa.BasicBlock, loop map[*ssa.BasicBlock]bool, key func(string) string) {
+func c09Accumulators(c *Ctx, rule string, f *ssa.Function, hdr *ssa.BasicBlock, loop map[*ssa.BasicBlock]bool, key func(string) string) {
 	r := c.R
 	gc := newGuardCache(c)
 	n := 0
@@ -349,12 +349,12 @@ func c09Accumulators(c *Ctx, f *ssa.Function, hdr *ssa.BasicBlock, loop map[*ssa
 					capped = true
 				}
 			}
-			r.Check(capped, "C09-K1", key("accumulator "+acc.Comment+" is length-capped by a constant"), c.P.ipos(bo), "dominating comparison of len(accumulator)+… with a constant",
+			r.Check(capped, rule, key("accumulator "+acc.Comment+" is length-capped by a constant"), c.P.ipos(bo), "dominating comparison of len(accumulator)+… with a constant",
 				"inside a loop with a cursor jump the accumulator "+acc.Comment+" grows by input-derived chunks without a bound: each compression pointer can re-append an arbitrarily long run of labels (measured: 65 kB input → ~0.5 GB retained, ~270 GB allocated)")
 		}
 	}
 	if n == 0 {
-		r.OK("C09-K1", key("no string accumulator in the loop"), c.P.ipos(hdr.Instrs[0]), "scan", "")
+		r.OK(rule, key("no string accumulator in the loop"), c.P.ipos(hdr.Instrs[0]), "scan", "")
 	}
 }
 
@@ -471,37 +471,70 @@ func c09Encoders(c *Ctx) {
 		}
 		type site struct {
 			in   ssa.Instruction
-			recv ssa.Value
+			recv string // symx of the receiver, in terms of f's own parameters
+			via  string
 		}
-		var sites []site
-		allInstrs(f, func(in ssa.Instruction) {
-			cl, ok := in.(*ssa.Call)
-			if !ok {
-				return
-			}
-			cc := cl.Common()
-			name := ""
-			var recv ssa.Value
-			if cc.IsInvoke() {
-				name, recv = cc.Method.Name(), cc.Value
-			} else if sf := cc.StaticCallee(); sf != nil && sf.Signature.Recv() != nil && len(cc.Args) > 0 && inModule(sf) {
-				name, recv = sf.Name(), cc.Args[0]
-			}
-			if name == "ToBytes" {
-				sites = append(sites, site{in, recv})
-			}
-		})
+		// sitesOf: ToBytes call sites of g; helper methods/functions of the module that are not encoders
+		// themselves are expanded (depth ≤ 3) with their parameters replaced by the actual arguments
+		var sitesOf func(g *ssa.Function, depth int) []site
+		sitesOf = func(g *ssa.Function, depth int) []site {
+			var out []site
+			allInstrs(g, func(in ssa.Instruction) {
+				cl, ok := in.(*ssa.Call)
+				if !ok {
+					return
+				}
+				cc := cl.Common()
+				if cc.IsInvoke() {
+					if cc.Method.Name() == "ToBytes" {
+						out = append(out, site{in, c.Sx().Of(cc.Value).String(), ""})
+					}
+					return
+				}
+				sf := cc.StaticCallee()
+				if sf == nil || !inModule(sf) || sf.Blocks == nil {
+					return
+				}
+				if sf.Name() == "ToBytes" && sf.Signature.Recv() != nil && len(cc.Args) > 0 {
+					out = append(out, site{in, c.Sx().Of(cc.Args[0]).String(), ""})
+					return
+				}
+				if depth >= 3 || sf.Name() == "Marshal" || sf.Name() == "String" || sf.Name() == "Summary" {
+					return
+				}
+				for _, s2 := range sitesOf(sf, depth+1) {
+					rs := s2.recv
+					for i, a := range cc.Args {
+						if i < len(sf.Params) {
+							rs = strings.ReplaceAll(rs, c.Sx().Of(sf.Params[i]).String(), c.Sx().Of(a).String())
+						}
+					}
+					out = append(out, site{in, rs, shortName(sf)})
+				}
+			})
+			return out
+		}
+		sites := sitesOf(f, 0)
 		n += len(sites)
 		for i := 0; i < len(sites); i++ {
 			for j := 0; j < len(sites); j++ {
-				if i == j || !sameRecv(c, sites[i].recv, sites[j].recv) {
+				if i == j || sites[i].recv != sites[j].recv || strings.Contains(sites[i].recv, "opaque(") {
 					continue
 				}
 				a, b := sites[i].in, sites[j].in
+				if a == b {
+					continue
+				}
 				seq := (a.Block() == b.Block() && instrIndex(a) < instrIndex(b)) || (a.Block() != b.Block() && reachFromSuccs(a.Block(), nil, nil)[b.Block()] && !inCycleSeparated(a, b))
 				if seq {
-					r.Violation("C09-K4", shortName(f)+": ToBytes invoked twice on "+shortDesc(sites[i].recv, 3), c.P.ipos(b),
-						"the same sub-value is serialised twice on one path (first at "+c.P.ipos(a)+"): an option nested d levels deep is re-encoded 2^d times, so re-encoding a decoded message is exponential in the nesting depth")
+					via := ""
+					if sites[i].via != "" {
+						via = " (first through " + sites[i].via + ")"
+					} else if sites[j].via != "" {
+						via = " (second through " + sites[j].via + ")"
+					}
+					r.Violation("C09-K4", shortName(f)+": ToBytes invoked twice on "+shortRecv(sites[i].recv), c.P.ipos(b),
+						"the same sub-value is serialised twice on one path (first at "+c.P.ipos(a)+")"+via+": an option nested d levels deep is re-encoded 2^d times, so re-encoding a decoded message is exponential in the nesting depth")
 				}
 			}
 		}
@@ -539,4 +572,40 @@ func mentionsLenOf(v ssa.Value, x ssa.Value, d int) bool {
 		return mentionsLenOf(t.X, x, d+1)
 	}
 	return false
+}
+
+// labelNameCap: the per-name length cap of the label decoder is a test on the NAME being assembled
+// (len(accumulator) + … against a constant), not on a buffer offset. Shared by C05 (a list of valid names of
+// any total size is accepted; a name over 255 octets is rejected) and C09.
+func labelNameCap(c *Ctx, rule string) {
+	r := c.R
+	f := c.P.Func(modPath + "/rfc1035label.labelsFromBytes")
+	if f == nil {
+		r.Undecided(rule, "rfc1035label.labelsFromBytes", "-", "not found")
+		return
+	}
+	n := 0
+	for _, hdr := range loopHeaders(f) {
+		n++
+		key := func(s string) string { return shortName(f) + ": " + s }
+		c09Accumulators(c, rule, f, hdr, sccOf(hdr), key)
+	}
+	r.Check(n >= 1, rule, shortName(f)+": decode loop found", c.P.pos(f.Pos()), "loop headers", "no loop")
+}
+
+// shortRecv: a readable tail of a symx receiver string (field path)
+func shortRecv(s string) string {
+	var fs []string
+	for _, m := range strings.Split(s, "field[")[1:] {
+		if i := strings.Index(m, "]"); i > 0 {
+			fs = append([]string{m[:i]}, fs...)
+		}
+	}
+	if len(fs) == 0 {
+		if len(s) > 60 {
+			return s[:60] + "…"
+		}
+		return s
+	}
+	return "receiver." + strings.Join(fs, ".")
 }
